@@ -187,6 +187,9 @@ func runC05(c *Ctx, r *Report) {
 	c05Sizes(c, r)
 	// ---- R5 definition precedes data ---------------------------------------------------------------------
 	c05DefBeforeData(c, r)
+	encodeDefCovers(c, r, "C05-R5-def-before-data")
+	encodeProfileRows(c, r, "C05-R4-size-agreement")
+	encodePrivateBuffer(c, r, "C05-R2-ordering")
 }
 
 // reachableAvoiding: like reachableWithout, but additionally any block for which `mustPass` is a
@@ -1193,4 +1196,150 @@ func c05ArchHelper(c *Ctx) (map[string]string, bool) {
 		return m, m["binary.LittleEndian"] == "0" && m["binary.BigEndian"] == "1"
 	}
 	return nil, false
+}
+
+// encodeDefCovers: the definition under which encodeFile writes the records of a list covers
+// every message of that list. Two recognised ways:
+//   (A) merged: the definition is built once per list by a counted loop over k = 0 .. v.Len()-1 of
+//       the same list value v, which calls getEncodeMesgDef on v.Index(k) and puts every one of its
+//       fields into a map M; the definition's field list is then rebuilt from a range over M;
+//   (B) per message: the definition is getEncodeMesgDef of the very message being written.
+// A definition carried over from an earlier message (written again only "when something
+// changed") is neither: a field that only a later message has is then silently not written.
+func encodeDefCovers(c *Ctx, r *Report, rule string) {
+	fn := c.ssaFn(c.fn(c.fit, "encoder.encodeFile"))
+	if fn == nil {
+		r.fail(rule, "encodeFile/definition-covers-list", "", "encoder.encodeFile not found")
+		return
+	}
+	isCallTo := func(v ssa.Value, name string) *ssa.Call {
+		call, ok := v.(*ssa.Call)
+		if !ok || call.Common().StaticCallee() == nil {
+			return nil
+		}
+		f := call.Common().StaticCallee()
+		if f.Name() == name || f.String() == name {
+			return call
+		}
+		return nil
+	}
+	// element(v, idx): reflect.Indirect((reflect.Value).Index(v, idx)) or the Index call itself
+	element := func(x ssa.Value) (list ssa.Value, idx ssa.Value, ok bool) {
+		if ind := isCallTo(x, "reflect.Indirect"); ind != nil {
+			x = ind.Common().Args[0]
+		}
+		if ix := isCallTo(x, "(reflect.Value).Index"); ix != nil {
+			return ix.Common().Args[0], ix.Common().Args[1], true
+		}
+		return nil, nil, false
+	}
+	n := 0
+	for _, ci := range allCalls(fn) {
+		f := ci.Common().StaticCallee()
+		if f == nil || f.Name() != "writeMesg" || len(ci.Common().Args) != 3 {
+			continue
+		}
+		n++
+		mesg, defv := ci.Common().Args[1], ci.Common().Args[2]
+		list, _, okEl := element(mesg)
+		if !okEl {
+			r.undecided(rule, "encodeFile/definition-covers-list", c.pos(ci.Pos()), "the message written is not an element of a list value")
+			continue
+		}
+		// sources of the definition: direct value, or the non-nil stores into its cell
+		var sources []ssa.Value
+		if ld, ok := defv.(*ssa.UnOp); ok && ld.Op == token.MUL {
+			if cell, ok := ld.X.(*ssa.Alloc); ok {
+				for _, ref := range *cell.Referrers() {
+					if st, ok := ref.(*ssa.Store); ok && st.Addr == ssa.Value(cell) && !isNilConst(st.Val) {
+						sources = append(sources, st.Val)
+					}
+				}
+			}
+		} else {
+			sources = []ssa.Value{defv}
+		}
+		why := ""
+		ok := len(sources) > 0
+		mode := ""
+		for _, src := range sources {
+			g := isCallTo(src, "getEncodeMesgDef")
+			if g == nil {
+				ok, why = false, "the definition comes from "+stripAddrs(pathOf(src))+", not from getEncodeMesgDef"
+				break
+			}
+			arg := g.Common().Args[0]
+			if arg == mesg && (g.Block() == ci.Block() || g.Block().Dominates(ci.Block())) {
+				mode = "per message"
+				continue // (B)
+			}
+			// (A): a counted loop over the whole list
+			l2, k, okEl2 := element(arg)
+			if !okEl2 || l2 != list {
+				ok, why = false, "the definition is computed from "+stripAddrs(pathOf(arg))+", which is neither the message being written nor an element of the same list"
+				break
+			}
+			phi, isPhi := k.(*ssa.Phi)
+			full := false
+			if isPhi && len(phi.Edges) == 2 {
+				var init, step ssa.Value
+				for i, e := range phi.Edges {
+					if phi.Block().Dominates(phi.Block().Preds[i]) {
+						step = e
+					} else {
+						init = e
+					}
+				}
+				k0, isK := init.(*ssa.Const)
+				inc, isInc := step.(*ssa.BinOp)
+				if isK && k0.Value != nil && k0.Int64() == 0 && isInc && inc.Op == token.ADD && inc.X == ssa.Value(phi) {
+					if one, ok := inc.Y.(*ssa.Const); ok && one.Int64() == 1 {
+						if ifi, ok := phi.Block().Instrs[len(phi.Block().Instrs)-1].(*ssa.If); ok {
+							if cond, ok := ifi.Cond.(*ssa.BinOp); ok && cond.Op == token.LSS && cond.X == ssa.Value(phi) {
+								if ln := isCallTo(cond.Y, "(reflect.Value).Len"); ln != nil && ln.Common().Args[0] == list {
+									full = true
+								}
+							}
+						}
+					}
+				}
+			}
+			if !full {
+				ok, why = false, "the loop that collects the fields does not run k = 0 .. Len()-1 over the list being written"
+				break
+			}
+			// every field of each per-message definition goes into a map, and the final list comes from ranging over it
+			var m ssa.Value
+			body, _ := loopBody(phi.Block())
+			for b := range body {
+				for _, ins := range b.Instrs {
+					if mu, isMU := ins.(*ssa.MapUpdate); isMU {
+						m = mu.Map
+					}
+				}
+			}
+			ranged, rebuilt := false, false
+			for _, b := range fn.Blocks {
+				for _, ins := range b.Instrs {
+					if rg, isR := ins.(*ssa.Range); isR && m != nil && rg.X == m {
+						ranged = true
+					}
+					if st, isS := ins.(*ssa.Store); isS && strings.HasSuffix(pathOf(st.Addr), ".fields") {
+						if _, isApp := st.Val.(*ssa.Call); isApp && ranged {
+							rebuilt = true
+						}
+					}
+				}
+			}
+			if m == nil || !ranged || !rebuilt {
+				ok, why = false, "the fields collected over the list are not merged into one field list (map filled in the loop, definition rebuilt from a range over it)"
+				break
+			}
+			mode = "merged over the whole list"
+		}
+		r.check(ok, rule, "encodeFile/definition-covers-list", c.pos(ci.Pos()), "the definition used for a list's records is "+mode, "a record of a list can be written under a definition that does not cover it: "+why+" — fields that only some messages of the list have set are silently dropped (or read back as another field)")
+	}
+	if n == 0 {
+		r.fail(rule, "encodeFile/definition-covers-list", c.pos(fn.Pos()), "no writeMesg call found in encodeFile")
+	}
 }
